@@ -12,7 +12,10 @@ From WH Require model.AlphConv model.AlphWatcher proofs.AlphConvProofs proofs.Al
 Import ListNotations.
 Open Scope Z_scope.
 
+From Coq Require Strings.String.
 Module CP := AlphConvProofs.
+(* the type strings of sdk.Val (string literals need String's notation, kept local to this module) *)
+Module Ty. Import Coq.Strings.String. Definition bytevec : bytes := C.str "ByteVec". Definition u256 : bytes := C.str "U256". End Ty.
 Module WB := AlphWatcherBase.
 Module WS := AlphWatcherSafety.
 Module WP := AlphWatcherProofs.
@@ -423,3 +426,708 @@ Qed.
 
 Lemma abs_init : forall from0, abs_state (xinit from0) = W.init from0.
 Proof. reflexivity. Qed.
+
+(* ================================================================== 2. the pipeline's own invariant: end-to-end fidelity *)
+Section Fidelity.
+Variable c : xcfg.
+(* provenance predicates on the node's RAW answers, arbitrary (as in C08) *)
+Variable EP : xevent -> Prop.          (* "an event of the configured governance contract, as the node reports it" *)
+Variable HP : Z -> W.header -> Prop.   (* "the header of that block" *)
+Variable AP : xmc_ans -> Prop.         (* "an answer of the node to the token-metadata multicall" *)
+
+Definition xop_ok (o : xop) : Prop :=
+  match o with
+  | XPoll cnt pg tok => (forall k s evs next, pg k s = XPage evs next -> Forall EP evs) /\ (forall i, AP (tok i))
+  | XTick height now mc hd => forall b h, hd b = Some h -> HP b h
+  | XReobs r => (forall evs, xr_events r = Some evs -> Forall (fun te => xt_addr te = xc_gov c -> EP (with_txid (req_txid r) (xt_ev te))) evs)
+                /\ (forall b h, xr_hd r b = Some h -> HP b h) /\ (forall i, AP (xr_tok r i))
+  | _ => True
+  end.
+
+(* an attestation carries what GetTokenInfo made of an answer of the node, and its payload parses to exactly that *)
+Definition xattest_ok (w : C.wmsg) (ch : option C.token_info) : Prop :=
+  xis_attest w = true -> exists t a, ch = Some t /\ C.parse_attest_token (C.w_payload w) = C.COk t /\ AP a /\ xget_token_info (C.t_id t) a = XTiOk t.
+
+Definition xugood (u : xuevent) : Prop :=
+  EP (xu_ev u) /\ xto_unconfirmed (xu_ev u) = Some (xu_msg u) /\ xattest_ok (xu_msg u) (xu_chain u).
+Definition xbgood (b : xpblock) : Prop :=
+  Forall (fun u => xugood u /\ x_block (xu_ev u) = xpb_hash b) (xpb_evs b) /\ (forall h, xpb_hdr b = Some h -> HP (xpb_hash b) h).
+Definition XInv (s : xstate) : Prop := (forall l, x_inflight s = Some l -> Forall xugood l) /\ Forall xbgood (x_pending s).
+
+Lemma XInv_init : forall from0, XInv (xinit from0).
+Proof. intro from0. split; [intros l H; discriminate H|constructor]. Qed.
+
+Lemma xvalidate_attest_ok : forall w a t, xvalidate_attest w a = XVaOk t ->
+  C.parse_attest_token (C.w_payload w) = C.COk t /\ xget_token_info (C.t_id t) a = XTiOk t.
+Proof.
+  intros w a t. unfold xvalidate_attest. destruct (C.parse_attest_token (C.w_payload w)) as [ti|]; [|discriminate].
+  destruct (xget_token_info (C.t_id ti) a) as [t'| |] eqn:G; try discriminate.
+  destruct (xtokinfo_eqb ti t') eqn:E; [|discriminate]. intro H. injection H as <-.
+  apply xtokinfo_eqb_eq in E. subst t'. split; [reflexivity|exact G].
+Qed.
+
+Lemma xclassify_keep : forall a e u, EP e -> AP a -> xclassify a e = XKeep u -> xugood u /\ xu_ev u = e.
+Proof.
+  intros a e u He Ha. unfold xclassify. destruct (xto_unconfirmed e) as [w|] eqn:T; [|destruct alph_unconv_aborts; discriminate].
+  destruct (xis_attest w) eqn:A.
+  - destruct (xvalidate_attest w a) as [t| |] eqn:V; try discriminate. intro H. injection H as <-.
+    apply xvalidate_attest_ok in V as [V1 V2]. unfold xugood. cbn [xu_ev xu_msg xu_chain]. repeat apply conj; auto.
+    intros _. exists t, a. auto.
+  - intro H. injection H as <-. unfold xugood. cbn [xu_ev xu_msg xu_chain]. repeat apply conj; auto.
+    intro A'. rewrite A in A'. discriminate A'.
+Qed.
+
+Lemma xhandle_unconfirmed_good : forall tok evs idx l, Forall EP evs -> (forall i, AP (tok i)) ->
+  xhandle_unconfirmed tok idx evs = XHuOk l -> Forall xugood l.
+Proof.
+  intros tok evs. induction evs as [|e t IH]; intros idx l He Ha H; cbn [xhandle_unconfirmed] in H.
+  - injection H as <-. constructor.
+  - inversion He as [|e' t' He1 He2]; subst.
+    destruct (xclassify (tok idx) e) as [u| | |] eqn:K; try discriminate.
+    + destruct (xhandle_unconfirmed tok (idx + 1) t) as [l'| |] eqn:R; try discriminate. injection H as <-.
+      constructor; [apply (xclassify_keep _ _ _ He1 (Ha idx) K)|eapply IH; eauto].
+    + eapply IH; eauto.
+Qed.
+
+Lemma xpage_loop_good : forall pg tok count,
+  (forall k s evs next, pg k s = XPage evs next -> Forall EP evs) -> (forall i, AP (tok i)) ->
+  forall fuel k cur acc from' batch n, Forall xugood acc -> xpage_loop pg tok fuel k cur count acc = XPBatch from' batch n -> Forall xugood batch.
+Proof.
+  intros pg tok count Hp Ha. induction fuel as [|f IH]; intros k cur acc from' batch n Hacc H; [discriminate|].
+  cbn [xpage_loop] in H. destruct (pg k cur) as [|evs next] eqn:P; [discriminate|].
+  destruct (xhandle_unconfirmed tok cur evs) as [l| |] eqn:HU; try discriminate.
+  assert (G : Forall xugood (acc ++ l)).
+  { apply Forall_app. split; [exact Hacc|]. eapply xhandle_unconfirmed_good; [eapply Hp; exact P|exact Ha|exact HU]. }
+  destruct (alph_page_exit next count).
+  - injection H as <- <- <-. exact G.
+  - eapply IH; [exact G|exact H].
+Qed.
+
+Lemma xadd_event_good : forall p u, Forall xbgood p -> xugood u -> Forall xbgood (xadd_event p u).
+Proof.
+  intros p u Hp Hu. induction p as [|b t IH]; cbn [xadd_event].
+  - constructor; [|constructor]. split; cbn [xpb_evs xpb_hdr xpb_hash]; [|intros h H; discriminate H].
+    constructor; [split; [exact Hu|reflexivity]|constructor].
+  - inversion Hp as [|b' t' Hb Ht]; subst. destruct (xpb_hash b =? x_block (xu_ev u)) eqn:E.
+    + apply Z.eqb_eq in E. constructor; [|exact Ht]. destruct Hb as [Hb1 Hb2]. split; cbn [xpb_evs xpb_hdr xpb_hash]; [|exact Hb2].
+      apply Forall_app. split; [exact Hb1|]. constructor; [split; [exact Hu|symmetry; exact E]|constructor].
+    + constructor; [exact Hb|apply IH; exact Ht].
+Qed.
+
+Lemma xadd_batch_good : forall l p, Forall xbgood p -> Forall xugood l -> Forall xbgood (xadd_batch p l).
+Proof.
+  unfold xadd_batch. induction l as [|u l IH]; intros p Hp Hl; cbn [fold_left]; [exact Hp|].
+  inversion Hl; subst. apply IH; [apply xadd_event_good; assumption|assumption].
+Qed.
+
+Definition xcgood (height now : Z) (mc : Z -> option bool) (x : xuevent * W.header) : Prop :=
+  xugood (fst x) /\ HP (x_block (xu_ev (fst x))) (snd x) /\ mc (x_block (xu_ev (fst x))) = Some true /\
+  xconfirmed (xc_mainnet c) (xu_msg (fst x)) (snd x) now height = true.
+
+Lemma xprocess_block_good : forall height now mc hd b k conf,
+  (forall b h, hd b = Some h -> HP b h) -> xbgood b ->
+  xprocess_block (xc_mainnet c) height now mc hd b = XBOk k conf ->
+  (forall b', k = Some b' -> xbgood b') /\ Forall (xcgood height now mc) conf.
+Proof.
+  intros height now mc hd b k conf Hhd [Hb1 Hb2] H. unfold xprocess_block in H.
+  destruct (mc (xpb_hash b)) as [canon|] eqn:M; [|discriminate].
+  destruct (match xpb_hdr b with Some h => Some h | None => hd (xpb_hash b) end) as [h|] eqn:Hh; [|discriminate].
+  assert (HPh : HP (xpb_hash b) h).
+  { destruct (xpb_hdr b) as [h'|] eqn:P; [injection Hh as <-; apply Hb2; reflexivity|apply Hhd; exact Hh]. }
+  injection H as <- <-. split.
+  - intros b' Hk. destruct (filter _ (xpb_evs b)) as [|x r] eqn:F; [discriminate|]. injection Hk as <-.
+    split; cbn [xpb_evs xpb_hdr xpb_hash]; [|intros h' Hq; injection Hq as <-; exact HPh].
+    rewrite <- F. apply Forall_filter. exact Hb1.
+  - destruct canon; [|constructor]. apply Forall_forall. intros [u h'] Hx. apply in_map_iff in Hx as (u' & Hx & Hu').
+    injection Hx as <- <-. apply filter_In in Hu' as [Hu' Hc]. rewrite Forall_forall in Hb1. destruct (Hb1 _ Hu') as [G E].
+    unfold xcgood. cbn [fst snd]. rewrite E. auto.
+Qed.
+
+Lemma xprocess_blocks_good : forall height now mc hd p p' conf,
+  (forall b h, hd b = Some h -> HP b h) -> Forall xbgood p ->
+  xprocess_blocks (xc_mainnet c) height now mc hd p = Some (p', conf) ->
+  Forall xbgood p' /\ Forall (xcgood height now mc) conf.
+Proof.
+  intros height now mc hd p. induction p as [|b t IH]; intros p' conf Hhd Hp H; cbn [xprocess_blocks] in H.
+  - injection H as <- <-. split; constructor.
+  - inversion Hp as [|b0 t0 Hb Ht]; subst.
+    destruct (xprocess_block (xc_mainnet c) height now mc hd b) as [|k cf] eqn:B; [discriminate|].
+    destruct (xprocess_blocks (xc_mainnet c) height now mc hd t) as [[q cf']|] eqn:R; [|discriminate].
+    injection H as <- <-. destruct (IH _ _ Hhd Ht eq_refl) as [I1 I2].
+    destruct (xprocess_block_good _ _ _ _ _ _ _ Hhd Hb B) as [K1 K2]. split.
+    + destruct k as [b'|]; [constructor; [apply K1; reflexivity|exact I1]|exact I1].
+    + apply Forall_app. split; assumption.
+Qed.
+
+(* THE MESSAGE: exactly the conversion of ONE event's raw fields, handed over as toMessagePublication with the header of
+   that event's block, sender = the configured token bridge *)
+Definition faithful (f : xfwd) : Prop :=
+  EP (xf_ev f) /\ HP (x_block (xf_ev f)) (xf_hdr f) /\
+  x_index (xf_ev f) = alph_wm_event_index /\
+  C.to_wormhole_message (x_fields (xf_ev f)) (x_txid (xf_ev f)) = C.COk (xf_msg f) /\
+  C.w_sender (xf_msg f) = xc_bridge c /\
+  xf_pub f = C.to_message_publication (xf_msg f) (W.h_ts (xf_hdr f)) /\
+  xattest_ok (xf_msg f) (xf_chain f).
+
+Lemma xto_unconfirmed_some : forall e w, xto_unconfirmed e = Some w ->
+  x_index e = alph_wm_event_index /\ C.to_wormhole_message (x_fields e) (x_txid e) = C.COk w.
+Proof.
+  intros e w. unfold xto_unconfirmed, conv. destruct (x_index e =? alph_wm_event_index) eqn:E; [|discriminate].
+  apply Z.eqb_eq in E. destruct (C.to_wormhole_message (x_fields e) (x_txid e)) as [w'|]; [|discriminate].
+  intro H. injection H as <-. auto.
+Qed.
+
+Lemma xhandle_confirmed_faithful : forall height now mc conf, Forall (xcgood height now mc) conf ->
+  Forall faithful (fst (xhandle_confirmed (xc_bridge c) conf)) /\ snd (xhandle_confirmed (xc_bridge c) conf) = false.
+Proof.
+  intros height now mc conf. induction conf as [|[u h] t IH]; intro H; cbn [xhandle_confirmed]; [split; [constructor|reflexivity]|].
+  inversion H as [|x t' Hx Ht]; subst. destruct Hx as ((G1 & G2 & G3) & Hh & Hm & Hc). cbn [fst snd] in *.
+  apply xto_unconfirmed_some in G2 as [G2 G2']. rewrite G2, Z.eqb_refl.
+  destruct (IH Ht) as [IH1 IH2]. destruct (xhandle_confirmed (xc_bridge c) t) as [f e]. cbn [fst snd] in *.
+  destruct (bytes_eqb_spec (C.w_sender (xu_msg u)) (xc_bridge c)) as [S|S]; cbn [fst snd]; [|auto].
+  split; [|exact IH2]. constructor; [|exact IH1].
+  unfold faithful, mkxfwd. cbn [xf_ev xf_msg xf_hdr xf_chain xf_pub]. repeat apply conj; auto.
+Qed.
+
+(* ---- re-observation *)
+Definition xrgood (r : xreobs_in) (evs : list xtevent) (blk : Z) (x : xtevent * xuevent * W.header) : Prop :=
+  let '(te, u, h) := x in
+  In te evs /\ xt_addr te = xc_gov c /\ x_block (xu_ev u) = blk /\ xr_hd r blk = Some h /\ xattest_ok (xu_msg u) (xu_chain u).
+
+Lemma reobs_filters : alph_reobs_addr_filter = true /\ alph_reobs_block_filter = true /\ alph_reobs_wallclock = true.
+Proof. repeat split. Qed.
+
+Lemma xgov_events_good : forall r txid blk all evs pos l, (forall i, AP (xr_tok r i)) -> incl evs all ->
+  xgov_events c txid blk (xr_hd r) (xr_tok r) pos evs = XGeOk l -> Forall (xrgood r all blk) l.
+Proof.
+  intros r txid blk all evs. induction evs as [|te t IH]; intros pos l Ha Hi H; cbn [xgov_events] in H.
+  - injection H as <-. constructor.
+  - assert (Hi' : incl t all) by (intros x Hx; apply Hi; right; exact Hx).
+    assert (Hte : In te all) by (apply Hi; left; reflexivity).
+    cbv zeta in H. destruct reobs_filters as (FA & FB & _). rewrite FA, FB in H. cbn [andb] in H.
+    destruct (negb (x_index (with_txid txid (xt_ev te)) =? alph_wm_event_index)); [eapply IH; eauto|].
+    destruct (negb (xt_addr te =? xc_gov c)) eqn:EA; [eapply IH; eauto|].
+    destruct (negb (x_block (with_txid txid (xt_ev te)) =? blk)) eqn:EB; [eapply IH; eauto|].
+    apply negb_false_iff in EA, EB. apply Z.eqb_eq in EA, EB.
+    destruct (xr_hd r (x_block (with_txid txid (xt_ev te)))) as [h|] eqn:Hh; [|discriminate H].
+    destruct (conv (with_txid txid (xt_ev te))) as [w|]; [|discriminate H].
+    rewrite EB in Hh.
+    destruct (xis_attest w) eqn:A.
+    + destruct (xvalidate_attest w (xr_tok r pos)) as [ti| |] eqn:V; [|eapply IH; eauto|discriminate H].
+      destruct (xgov_events c txid blk (xr_hd r) (xr_tok r) (pos + 1) t) as [| |l'] eqn:R; try discriminate H.
+      cbn [xge_cons] in H. injection H as <-. constructor; [|eapply IH; eauto].
+      unfold xrgood. cbn [xu_ev xu_msg xu_chain]. repeat apply conj; auto.
+      intros _. apply xvalidate_attest_ok in V as [V1 V2]. exists ti, (xr_tok r pos). auto.
+    + destruct (xgov_events c txid blk (xr_hd r) (xr_tok r) (pos + 1) t) as [| |l'] eqn:R; try discriminate H.
+      cbn [xge_cons] in H. injection H as <-. constructor; [|eapply IH; eauto].
+      unfold xrgood. cbn [xu_ev xu_msg xu_chain]. repeat apply conj; auto.
+      intro A'. rewrite A in A'. discriminate A'.
+Qed.
+
+(* what a re-observation hands over: faithful, and the event is one the node listed for the REQUESTED transaction (32-byte
+   hash, hex-encoded) with the governance contract's address, in the block the transaction is confirmed in *)
+Definition reobs_from (r : xreobs_in) (f : xfwd) : Prop :=
+  length (xr_txhash r) = 32%nat /\ x_txid (xf_ev f) = C.to_hex (xr_txhash r) /\
+  xr_status r = Some (Some (x_block (xf_ev f))) /\ xr_mc r = Some true /\
+  exists te evs, xr_events r = Some evs /\ In te evs /\ xf_ev f = with_txid (req_txid r) (xt_ev te) /\ xt_addr te = xc_gov c.
+
+Lemma txid_len32 : alph_txid_len = 32.
+Proof. reflexivity. Qed.
+
+Lemma xreobserve_faithful : forall r, xop_ok (XReobs r) -> Forall (fun f => faithful f /\ reobs_from r f) (fst (xreobserve c r)).
+Proof.
+  intros r (He & Hh & Ha). unfold xreobserve.
+  destruct (negb (xr_chain r =? alph_chain_id)); [constructor|].
+  destruct (negb (Z.of_nat (length (xr_txhash r)) =? alph_txid_len)) eqn:EL; [constructor|].
+  apply negb_false_iff in EL. apply Z.eqb_eq in EL. rewrite txid_len32 in EL.
+  destruct (xr_status r) as [[blk|]|] eqn:St; try constructor. destruct (xr_events r) as [evs|] eqn:Ev; [|constructor].
+  destruct (xgov_events c (req_txid r) blk (xr_hd r) (xr_tok r) 0 evs) as [| |l] eqn:G; try constructor.
+  pose proof (xgov_events_ok _ _ _ _ _ _ _ _ G) as OK.
+  apply (xgov_events_good r (req_txid r) blk evs) in G; [|exact Ha|apply incl_refl].
+  destruct (xr_mc r) as [[|]|] eqn:Mc; try constructor. destruct (xr_height r) as [height|] eqn:Ht; [|constructor].
+  cbn [fst]. rewrite (xhandle_gov_spec (req_txid r)) by (apply Forall_filter; exact OK).
+  apply Forall_forall. intros f Hf. apply in_map_iff in Hf as ([[te u] h] & <- & Hx).
+  apply filter_In in Hx as [Hx Hs]. apply filter_In in Hx as [Hx _]. cbn [fst snd] in *.
+  rewrite Forall_forall in G, OK. specialize (G _ Hx). specialize (OK _ Hx). destruct G as (G1 & G2 & G3 & G4 & G5). destruct OK as (O1 & O2 & O3).
+  apply bytes_eqb_eq in Hs.
+  assert (J1 : EP (xu_ev u)). { specialize (He _ eq_refl). rewrite Forall_forall in He. rewrite O1. apply He; assumption. }
+  assert (Cv : C.to_wormhole_message (x_fields (xu_ev u)) (x_txid (xu_ev u)) = C.COk (xu_msg u)).
+  { unfold conv in O2. destruct (C.to_wormhole_message (x_fields (xu_ev u)) (x_txid (xu_ev u))) as [w|]; [|discriminate O2]. injection O2 as ->. reflexivity. }
+  split.
+  - unfold faithful, mkxfwd. cbn [xf_ev xf_msg xf_hdr xf_chain xf_pub]. rewrite G3. repeat apply conj; auto.
+  - unfold reobs_from, mkxfwd. cbn [xf_ev]. rewrite G3. repeat apply conj; auto; try lia.
+    + rewrite O1. reflexivity.
+    + exists te, evs. auto.
+Qed.
+
+(* ---- one step *)
+Definition xjust (o : xop) (f : xfwd) : Prop :=
+  faithful f /\ match o with XTick _ _ _ _ => True | XReobs r => reobs_from r f | _ => False end.
+
+Theorem xstep_good : forall s o, XInv s -> xop_ok o ->
+  XInv (fst (xstep c s o)) /\ Forall (xjust o) (xo_fwd (snd (xstep c s o))).
+Proof.
+  intros s o HI Hok. pose proof HI as [I1 I2]. unfold xstep. destruct (x_dead s) eqn:D; [split; [exact HI|constructor]|].
+  assert (Hdie : XInv (xdie s)) by (split; [exact I1|exact I2]).
+  destruct o as [cnt pg tok| |height now mc hd|r|].
+  - destruct (x_inflight s) as [l0|] eqn:F; [split; [exact HI|constructor]|].
+    destruct Hok as [Hp Ha].
+    destruct (xpoll cnt pg tok (x_from s)) as [|from' batch n| | |] eqn:P; cbn [fst snd xo_fwd xout0 xfail]; (split; [|constructor]); try (exact HI || exact Hdie).
+    split; cbn [x_inflight x_pending]; [|exact I2].
+    intros l Hl. injection Hl as <-. unfold xpoll in P. destruct cnt as [count|]; [|discriminate].
+    destruct (count =? x_from s); [discriminate|].
+    eapply xpage_loop_good; [exact Hp|exact Ha| |exact P]. constructor.
+  - destruct (x_inflight s) as [l|] eqn:F; cbn [fst snd xo_fwd xout0]; (split; [|constructor]); [|exact HI].
+    split; cbn [x_inflight x_pending]; [intros l' H; discriminate H|].
+    apply xadd_batch_good; [exact I2|apply (proj1 HI); exact F].
+  - destruct (xprocess_blocks (xc_mainnet c) height now mc hd (x_pending s)) as [[p' conf]|] eqn:R; [|split; [exact Hdie|constructor]].
+    destruct (xprocess_blocks_good _ _ _ _ _ _ _ Hok I2 R) as [G1 G2].
+    destruct (xhandle_confirmed_faithful height now mc conf G2) as [J1 J2].
+    destruct (xhandle_confirmed (xc_bridge c) conf) as [f err]. cbn [fst snd xo_fwd] in *. split.
+    + split; cbn [x_inflight x_pending]; assumption.
+    + eapply Forall_impl; [|exact J1]. intros a Ha. split; [exact Ha|exact I].
+  - pose proof (xreobserve_faithful r Hok) as J. destruct (xreobserve c r) as [f fl]. cbn [fst snd xo_fwd] in *. split.
+    + destruct fl; exact HI || exact Hdie.
+    + exact J.
+  - split; [exact Hdie|constructor].
+Qed.
+
+Lemma xall_fwds_good : forall ops s, XInv s -> Forall xop_ok ops -> Forall (fun x => xjust (fst x) (snd x)) (xall_fwds c s ops).
+Proof.
+  induction ops as [|o t IH]; intros s HI Hok; cbn [xall_fwds]; [constructor|].
+  inversion Hok as [|o' t' Ho Ht]; subst. destruct (xstep_good s o HI Ho) as [HI' J].
+  apply Forall_app. split; [|apply IH; assumption].
+  apply Forall_forall. intros [o' f] Hin. apply in_map_iff in Hin as (f' & E & Hin). injection E as <- <-.
+  rewrite Forall_forall in J. apply J. exact Hin.
+Qed.
+
+(* ---- the invariant is carried by the abstraction: the abstract watcher's invariant (C08) holds for the abstracted state *)
+Definition EPa (ce : W.cevent) : Prop := exists e, EP e /\ ce = abs_event e.
+Definition APa (a' : W.mc_ans) : Prop := exists a, AP a /\ a' = abs_ans a.
+
+Lemma abs_ugood : forall u, xugood u -> WB.ugood EPa APa (abs_u u).
+Proof.
+  intros u (G1 & G2 & G3). unfold WB.ugood. cbn [abs_u W.u_ev W.u_msg W.u_chain]. repeat apply conj.
+  - exists (xu_ev u). auto.
+  - rewrite sim_to_unconfirmed, G2. reflexivity.
+  - intro A. rewrite sim_is_attest in A. destruct (G3 A) as (t & a & E1 & E2 & E3 & E4).
+    exists (abs_tok t), (abs_ans a). rewrite E1. unfold abs_msg. cbn [W.m_tok option_map]. rewrite E2. repeat apply conj; auto.
+    + exists a. auto.
+    + change (W.ti_id (abs_tok t)) with (enc_id (C.t_id t)). rewrite sim_get_token_info, E4. reflexivity.
+Qed.
+
+Lemma abs_Inv : forall s, XInv s -> WB.Inv EPa HP APa (abs_state s).
+Proof.
+  intros s [I1 I2]. split.
+  - intros l' H. unfold abs_state in H. cbn [W.w_inflight] in H. destruct (x_inflight s) as [l|]; [|discriminate H].
+    cbn [option_map] in H. injection H as <-. apply Forall_forall. intros u' Hu. apply in_map_iff in Hu as (u & <- & Hu).
+    apply abs_ugood. specialize (I1 _ eq_refl). rewrite Forall_forall in I1. apply I1. exact Hu.
+  - unfold abs_state. cbn [W.w_pending]. apply Forall_forall. intros b' Hb. apply in_map_iff in Hb as (b & <- & Hb).
+    rewrite Forall_forall in I2. destruct (I2 _ Hb) as [B1 B2]. split; cbn [abs_pblock W.pb_evs W.pb_hdr W.pb_hash]; [|exact B2].
+    apply Forall_forall. intros u' Hu. apply in_map_iff in Hu as (u & <- & Hu). rewrite Forall_forall in B1. destruct (B1 _ Hu) as [G E].
+    split; [apply abs_ugood; exact G|exact E].
+Qed.
+
+Lemma abs_op_ok : forall o, xop_ok o -> WB.op_ok (abs_cfg c) EPa HP APa (abs_op o).
+Proof.
+  intros o H. destruct o as [cnt pg tok| |height now mc hd|r|]; cbn [abs_op WB.op_ok]; try exact I.
+  - destruct H as [Hp Ha]. split.
+    + intros k s evs' next E. destruct (pg k s) as [|evs n] eqn:P; cbn [abs_page] in E; [discriminate E|]. injection E as <- <-.
+      apply Forall_forall. intros e' He. apply in_map_iff in He as (e & <- & He). exists e. split; [|reflexivity].
+      specialize (Hp _ _ _ _ P). rewrite Forall_forall in Hp. apply Hp. exact He.
+    + intro i. exists (tok i). auto.
+  - exact H.
+  - destruct H as (He & Hh & Ha). repeat apply conj.
+    + intros evs' E. cbn [abs_reobs W.r_events] in E. destruct (xr_events r) as [evs|] eqn:Ev; [|discriminate E]. cbn [option_map] in E. injection E as <-.
+      apply Forall_forall. intros te' Hte. apply in_map_iff in Hte as (te & <- & Hte). cbn [abs_tevent W.t_addr W.t_ev abs_cfg W.c_gov].
+      intro A. exists (with_txid (req_txid r) (xt_ev te)). split; [|reflexivity].
+      specialize (He _ eq_refl). rewrite Forall_forall in He. apply He; assumption.
+    + exact Hh.
+    + intro i. exists (xr_tok r i). auto.
+Qed.
+
+(* END TO END, over every history: every message handed to the signer (either path) is the faithful conversion of one event
+   the node served, AND its abstraction is `justified` in the sense of C08 in the step that sends it *)
+Theorem pipeline_end_to_end : forall ops s, XInv s -> Forall xop_ok ops ->
+  Forall (fun x => xjust (fst x) (snd x) /\ WS.justified (abs_cfg c) EPa HP APa (abs_op (fst x)) (abs_fwd (snd x))) (xall_fwds c s ops).
+Proof.
+  induction ops as [|o t IH]; intros s HI Hok; cbn [xall_fwds]; [constructor|].
+  inversion Hok as [|o' t' Ho Ht]; subst. destruct (xstep_good s o HI Ho) as [HI' J].
+  pose proof (WS.step_just (abs_cfg c) EPa HP APa (abs_state s) (abs_op o) (abs_Inv s HI) (abs_op_ok o Ho)) as JA.
+  rewrite sim_step in JA. cbn [snd abs_out W.o_fwd] in JA.
+  apply Forall_app. split; [|apply IH; assumption].
+  apply Forall_forall. intros [o' f] Hin. apply in_map_iff in Hin as (f' & E & Hin). injection E as <- <-. cbn [fst snd].
+  rewrite Forall_forall in J, JA. split; [apply J; exact Hin|]. apply JA. apply in_map. exact Hin.
+Qed.
+
+End Fidelity.
+
+(* ================================================================== 3. per-event independence through the conversion step *)
+Lemma xshape_test_same : forall rs i, xshape_test rs i i <> XShPanic.
+Proof.
+  intros rs i. unfold xshape_test. destruct (nth i rs XFailed) as [|rets] eqn:E; cbn [xsucceeded negb]; [discriminate|].
+  destruct rets as [|v [|w t]]; discriminate.
+Qed.
+
+Lemma xget_token_info_no_panic : forall id a, xget_token_info id a <> XTiPanic.
+Proof.
+  intros id a. unfold xget_token_info. destruct (bytes_eqb id alph_token_id); [discriminate|].
+  destruct a as [|rs]; [discriminate|]. destruct (negb (Nat.eqb (length rs) 3)); [discriminate|].
+  rewrite WP.tokinfo_tests_own.
+  pose proof (xshape_test_same rs 0) as P0. pose proof (xshape_test_same rs 1) as P1. pose proof (xshape_test_same rs 2) as P2.
+  destruct (xshape_test rs 0 0); try discriminate; try congruence.
+  destruct (xshape_test rs 1 1); try discriminate; try congruence.
+  destruct (xshape_test rs 2 2); try discriminate; try congruence.
+  destruct (C.to_bytevec v); [|discriminate]. destruct (C.to_bytevec v0); [|discriminate]. destruct (C.to_uint8 v1); discriminate.
+Qed.
+
+Lemma xvalidate_attest_no_panic : forall w a, xvalidate_attest w a <> XVaPanic.
+Proof.
+  intros w a. unfold xvalidate_attest. destruct (C.parse_attest_token (C.w_payload w)) as [ti|]; [|discriminate].
+  pose proof (xget_token_info_no_panic (C.t_id ti) a) as P.
+  destruct (xget_token_info (C.t_id ti) a) as [t| |]; try discriminate; try congruence.
+  destruct (xtokinfo_eqb ti t); discriminate.
+Qed.
+
+(* contribution of one event of the stream to the batch: decided by its own raw fields and the answer about the token it names *)
+Definition xkeep1 (a : xmc_ans) (e : xevent) : list xuevent := match xclassify a e with XKeep u => [u] | _ => [] end.
+Fixpoint xkeep_from (tok : Z -> xmc_ans) (idx : Z) (evs : list xevent) : list xuevent :=
+  match evs with [] => [] | e :: t => xkeep1 (tok idx) e ++ xkeep_from tok (idx + 1) t end.
+
+Lemma xclassify_cases : forall a e, xclassify a e = XSkip \/ exists u, xclassify a e = XKeep u.
+Proof.
+  intros a e. unfold xclassify. rewrite WP.unconv_skipped. destruct (xto_unconfirmed e) as [w|]; [|left; reflexivity].
+  destruct (xis_attest w).
+  - pose proof (xvalidate_attest_no_panic w a) as P. destruct (xvalidate_attest w a); try congruence; [right; eexists; reflexivity|left; reflexivity].
+  - right. eexists. reflexivity.
+Qed.
+
+(* handleUnconfirmedEvents never aborts a page and never panics, whatever the fields of its events are *)
+Lemma xhandle_unconfirmed_spec : forall tok evs idx, xhandle_unconfirmed tok idx evs = XHuOk (xkeep_from tok idx evs).
+Proof.
+  intros tok evs. induction evs as [|e t IH]; intro idx; cbn [xhandle_unconfirmed xkeep_from]; [reflexivity|].
+  unfold xkeep1. destruct (xclassify_cases (tok idx) e) as [H | [u H]]; rewrite H, IH; reflexivity.
+Qed.
+
+Lemma xkeep_from_app : forall tok a b idx,
+  xkeep_from tok idx (a ++ b) = xkeep_from tok idx a ++ xkeep_from tok (idx + Z.of_nat (length a)) b.
+Proof.
+  intros tok a. induction a as [|e t IH]; intros b idx.
+  - cbn [app xkeep_from length]. f_equal. lia.
+  - cbn [app xkeep_from length]. rewrite IH, <- app_assoc. do 3 f_equal. lia.
+Qed.
+
+Lemma xkeep_from_one_event : forall tok a e b idx,
+  xkeep_from tok idx (a ++ e :: b) =
+  xkeep_from tok idx a ++ xkeep1 (tok (idx + Z.of_nat (length a))) e ++ xkeep_from tok (idx + Z.of_nat (length a) + 1) b.
+Proof. intros. rewrite xkeep_from_app. cbn [xkeep_from]. reflexivity. Qed.
+
+(* the REAL rejection predicate: the event index is not the WormholeMessage index, or ToWormholeMessage rejects the fields *)
+Definition unfit (e : xevent) : Prop :=
+  x_index e <> alph_wm_event_index \/ exists err, C.to_wormhole_message (x_fields e) (x_txid e) = C.CErr err.
+
+Lemma unfit_unconv : forall e, unfit e -> xto_unconfirmed e = None.
+Proof.
+  intros e [H|[err H]]; unfold xto_unconfirmed, conv.
+  - destruct (Z.eqb_spec (x_index e) alph_wm_event_index); [contradiction|reflexivity].
+  - rewrite H. destruct (x_index e =? alph_wm_event_index); reflexivity.
+Qed.
+
+Lemma xkeep1_unfit : forall a e, unfit e -> xkeep1 a e = [].
+Proof. intros a e H. unfold xkeep1, xclassify. rewrite (unfit_unconv e H), WP.unconv_skipped. reflexivity. Qed.
+
+Theorem xkeep_from_unfit_transparent : forall tok a e b idx, unfit e ->
+  xkeep_from tok idx (a ++ e :: b) = xkeep_from tok idx a ++ xkeep_from tok (idx + Z.of_nat (length a) + 1) b.
+Proof. intros. rewrite xkeep_from_one_event, xkeep1_unfit by assumption. reflexivity. Qed.
+
+(* a page with an unfit event in it: no message for it, the page is not aborted, and the others are kept exactly as without it *)
+Theorem unfit_event_page : forall tok a e b idx, unfit e ->
+  xhandle_unconfirmed tok idx (a ++ e :: b) = XHuOk (xkeep_from tok idx a ++ xkeep_from tok (idx + Z.of_nat (length a) + 1) b).
+Proof. intros. rewrite xhandle_unconfirmed_spec, xkeep_from_unfit_transparent by assumption. reflexivity. Qed.
+
+(* a fitting event that is not an attestation is kept with exactly its conversion, whatever its sender *)
+Lemma xkeep1_fit_plain : forall a e w, x_index e = alph_wm_event_index -> C.to_wormhole_message (x_fields e) (x_txid e) = C.COk w ->
+  xis_attest w = false -> xkeep1 a e = [ {| xu_ev := e; xu_msg := w; xu_chain := None |} ].
+Proof.
+  intros a e w Hi Hc A. unfold xkeep1, xclassify, xto_unconfirmed, conv. rewrite Hi, Z.eqb_refl, Hc, A. reflexivity.
+Qed.
+
+Lemma xkeep1_fit_attest : forall a e w, x_index e = alph_wm_event_index -> C.to_wormhole_message (x_fields e) (x_txid e) = C.COk w ->
+  xis_attest w = true ->
+  xkeep1 a e = match xvalidate_attest w a with XVaOk t => [ {| xu_ev := e; xu_msg := w; xu_chain := Some t |} ] | _ => [] end.
+Proof.
+  intros a e w Hi Hc A. unfold xkeep1, xclassify, xto_unconfirmed, conv. rewrite Hi, Z.eqb_refl, Hc, A.
+  destruct (xvalidate_attest w a); reflexivity.
+Qed.
+
+(* every element of a batch is the conversion of the event it stems from *)
+Lemma xkeep1_in : forall a e u, In u (xkeep1 a e) ->
+  xu_ev u = e /\ x_index e = alph_wm_event_index /\ C.to_wormhole_message (x_fields e) (x_txid e) = C.COk (xu_msg u).
+Proof.
+  intros a e u. unfold xkeep1, xclassify. destruct (xto_unconfirmed e) as [w|] eqn:T.
+  - apply xto_unconfirmed_some in T as [T1 T2]. destruct (xis_attest w).
+    + destruct (xvalidate_attest w a); cbn [In]; try tauto. intros [<-|[]]. cbn [xu_ev xu_msg]. auto.
+    + cbn [In]. intros [<-|[]]. cbn [xu_ev xu_msg]. auto.
+  - rewrite WP.unconv_skipped. cbn [In]. tauto.
+Qed.
+
+(* ---- the stream is partitioned into batches (composition with C09's partition theorem) *)
+Section XPartition.
+Variable c : xcfg.
+Variable log : list xevent.      (* the governance contract's event stream, raw *)
+Variable T : Z -> xmc_ans.       (* the node's metadata answer for the event at each stream index *)
+
+Definition gseg (s : Z) (n : nat) : list xevent := firstn n (skipn (Z.to_nat s) log).
+Definition xloglen : Z := Z.of_nat (length log).
+
+Lemma gseg_length : forall s n, 0 <= s -> s + Z.of_nat n <= xloglen -> length (gseg s n) = n.
+Proof. intros s n Hs H. unfold gseg, xloglen in *. rewrite firstn_length, skipn_length. lia. Qed.
+
+Lemma gseg_app : forall s n m, 0 <= s -> gseg s (n + m) = gseg s n ++ gseg (s + Z.of_nat n) m.
+Proof.
+  intros s n m Hs. unfold gseg. replace (Z.to_nat (s + Z.of_nat n)) with (Z.to_nat s + n)%nat by lia.
+  rewrite WP.skipn_plus. apply WP.firstn_plus_skip.
+Qed.
+
+Lemma gseg_abs : forall s n, map abs_event (gseg s n) = WP.seg (map abs_event log) s n.
+Proof. intros s n. unfold gseg, WP.seg. rewrite skipn_map, firstn_map. reflexivity. Qed.
+
+Definition xwb_pages (pg : nat -> Z -> xpage_ans) (count : Z) : Prop :=
+  forall k s, 0 <= s <= xloglen -> exists n : nat,
+    pg k s = XPage (gseg s n) (s + Z.of_nat n) /\ s + Z.of_nat n <= xloglen /\ (s < count -> (0 < n)%nat).
+
+Lemma xpage_loop_wb : forall pg tok count, xwb_pages pg count ->
+  forall fuel k cur acc, 0 <= cur <= xloglen -> (Z.to_nat (count - cur) < fuel)%nat ->
+  exists from' j, xpage_loop pg tok fuel k cur count acc =
+                  XPBatch from' (acc ++ xkeep_from tok cur (gseg cur (Z.to_nat (from' - cur)))) (k + j)
+    /\ count <= from' /\ cur <= from' <= xloglen.
+Proof.
+  intros pg tok count WB. induction fuel as [|f IH]; intros k cur acc Hc Hf; [lia|].
+  destruct (WB k cur Hc) as (n & Hp & Hl & Hn).
+  cbn [xpage_loop]. rewrite Hp, xhandle_unconfirmed_spec, WP.page_exit_ge.
+  destruct (cur + Z.of_nat n >=? count) eqn:E.
+  - exists (cur + Z.of_nat n), 1%nat. replace (Z.to_nat (cur + Z.of_nat n - cur)) with n by lia.
+    replace (k + 1)%nat with (S k) by lia. repeat apply conj; try reflexivity; try lia.
+  - assert (Hlt : cur + Z.of_nat n < count) by lia. assert (Hn' : (0 < n)%nat) by (apply Hn; lia).
+    destruct (IH (S k) (cur + Z.of_nat n) (acc ++ xkeep_from tok cur (gseg cur n))) as (from' & j & Hr & H1 & H2); [lia|lia|].
+    exists from', (S j). rewrite Hr. repeat apply conj; try lia.
+    f_equal; [|lia]. rewrite <- app_assoc. f_equal.
+    replace (Z.to_nat (from' - cur)) with (n + Z.to_nat (from' - (cur + Z.of_nat n)))%nat by lia.
+    rewrite gseg_app by lia. rewrite xkeep_from_app. rewrite gseg_length by lia. reflexivity.
+Qed.
+
+Lemma xkeep_from_ext : forall tok evs idx, (forall i, tok i = T i) -> xkeep_from tok idx evs = xkeep_from T idx evs.
+Proof.
+  intros tok evs. induction evs as [|e t IH]; intros idx H; cbn [xkeep_from]; [reflexivity|]. rewrite H, IH by exact H. reflexivity.
+Qed.
+
+Definition xfine (o : xop) : Prop :=
+  match o with
+  | XPoll cn pg tok => exists count, cn = Some count /\ xwb_pages pg count /\ (forall i, tok i = T i)
+  | XTick _ _ mc hd => (forall b, mc b <> None) /\ (forall b, hd b <> None)
+  | XHeightErr => False
+  | _ => True
+  end.
+
+Lemma gseg_zero : forall s, gseg s 0 = [].
+Proof. reflexivity. Qed.
+
+(* one step: fromIndex only grows, and the batch is exactly the kept events of stream[from .. from') *)
+Lemma xstep_batch : forall s o, 0 <= x_from s <= xloglen -> xfine o ->
+  let s' := fst (xstep c s o) in
+  x_from s <= x_from s' <= xloglen /\
+  xo_batch (snd (xstep c s o)) = xkeep_from T (x_from s) (gseg (x_from s) (Z.to_nat (x_from s' - x_from s))).
+Proof.
+  intros s o Hf Hfine.
+  assert (Same : forall w x, x_from w = x_from s -> xo_batch x = [] ->
+            x_from s <= x_from w <= xloglen /\ xo_batch x = xkeep_from T (x_from s) (gseg (x_from s) (Z.to_nat (x_from w - x_from s)))).
+  { intros w x E B. rewrite E, Z.sub_diag, B. cbn [Z.to_nat]. rewrite gseg_zero. cbn [xkeep_from]. split; [lia|reflexivity]. }
+  cbv zeta. unfold xstep. destruct (x_dead s); [apply Same; reflexivity|].
+  destruct o as [cn pg tok| |height now mc hd|r|]; cbn [xfine] in Hfine.
+  - destruct Hfine as (count & -> & WB & Ht). destruct (x_inflight s) as [l0|]; [apply Same; reflexivity|].
+    unfold xpoll. destruct (count =? x_from s); [apply Same; reflexivity|].
+    destruct (xpage_loop_wb pg tok count WB (W.poll_fuel (x_from s) count) 0%nat (x_from s) [] Hf) as (from' & j & Hr & H1 & H2).
+    + unfold W.poll_fuel. lia.
+    + rewrite Hr. cbn [fst snd x_from xo_batch app]. rewrite (xkeep_from_ext tok) by exact Ht. split; [lia|reflexivity].
+  - destruct (x_inflight s); apply Same; reflexivity.
+  - destruct (xprocess_blocks (xc_mainnet c) height now mc hd (x_pending s)) as [[p' conf]|]; [|apply Same; reflexivity].
+    destruct (xhandle_confirmed (xc_bridge c) conf) as [f err]. apply Same; reflexivity.
+  - destruct (xreobserve c r) as [f fl]. destruct fl; apply Same; reflexivity.
+  - destruct Hfine.
+Qed.
+
+Lemma xpartition : forall ops s, 0 <= x_from s <= xloglen -> Forall xfine ops ->
+  x_from s <= x_from (xfinal c s ops) <= xloglen /\
+  xbatches c s ops = xkeep_from T (x_from s) (gseg (x_from s) (Z.to_nat (x_from (xfinal c s ops) - x_from s))).
+Proof.
+  induction ops as [|o t IH]; intros s Hf Hfine; cbn [xfinal xbatches].
+  - rewrite Z.sub_diag. cbn [Z.to_nat]. rewrite gseg_zero. cbn [xkeep_from]. split; [lia|reflexivity].
+  - inversion Hfine as [|o' t' Ho Ht]; subst. destruct (xstep_batch s o Hf Ho) as [S1 S2]. cbv zeta in S1.
+    destruct (IH (fst (xstep c s o)) ltac:(lia) Ht) as [J1 J2]. split; [lia|].
+    rewrite S2, J2.
+    set (f0 := x_from s) in *. set (f1 := x_from (fst (xstep c s o))) in *. set (f2 := x_from (xfinal c (fst (xstep c s o)) t)) in *.
+    replace (Z.to_nat (f2 - f0)) with (Z.to_nat (f1 - f0) + Z.to_nat (f2 - f1))%nat by lia.
+    rewrite gseg_app by lia. rewrite xkeep_from_app. rewrite gseg_length by (unfold xloglen in *; lia).
+    replace (f0 + Z.of_nat (Z.to_nat (f1 - f0))) with f1 by lia. reflexivity.
+Qed.
+
+(* the abstraction of an error-free raw history is an error-free abstract history *)
+Lemma abs_wb_pages : forall pg count, xwb_pages pg count -> WP.wb_pages (map abs_event log) (abs_pg pg) count.
+Proof.
+  intros pg count WB k s Hs. unfold WP.loglen in Hs. rewrite map_length in Hs. destruct (WB k s Hs) as (n & Hp & Hl & Hn).
+  exists n. unfold abs_pg. rewrite Hp. cbn [abs_page]. rewrite gseg_abs. unfold WP.loglen. rewrite map_length. auto.
+Qed.
+
+Lemma abs_fine : forall o, xfine o -> WP.fine (map abs_event log) (abs_tok_fn T) (abs_op o).
+Proof.
+  intros o H. destruct o as [cn pg tok| |height now mc hd|r|]; cbn [abs_op WP.fine]; try exact I; try exact H.
+  destruct H as (count & -> & WB & Ht). exists count. repeat apply conj; [reflexivity|apply abs_wb_pages; exact WB|].
+  intro i. unfold abs_tok_fn. rewrite Ht. reflexivity.
+Qed.
+
+Lemma all_quiet_flags : forall ops s, WP.all_quiet (abs_cfg c) (abs_state s) (map abs_op ops) ->
+  Forall (fun x => xo_flag x = W.FNone) (fst (xrun c s ops)).
+Proof.
+  induction ops as [|o t IH]; intros s H; cbn [xrun map WP.all_quiet] in *; [constructor|].
+  rewrite sim_step in H. cbn [fst snd abs_out W.o_flag] in H. destruct H as (H1 & _ & H3).
+  destruct (xstep c s o) as [s' x] eqn:E. cbn [fst snd] in *. specialize (IH s' H3). destruct (xrun c s' t) as [xs s'']. cbn [fst] in *.
+  constructor; assumption.
+Qed.
+
+(* EVERY error-free history of the composed watcher: it never terminates, no step reports Fatal / Spin / Panic, and the
+   batches handed to the event loop are - in order, each exactly once - the conversions of the FITTING events of
+   stream[from0 .. from_final) (attestations: those whose metadata matches); unfit events contribute nothing *)
+Theorem pipeline_partition : forall ops from0, 0 <= from0 <= xloglen -> Forall xfine ops ->
+  x_dead (xfinal c (xinit from0) ops) = false /\ Forall (fun x => xo_flag x = W.FNone) (fst (xrun c (xinit from0) ops)) /\
+  from0 <= x_from (xfinal c (xinit from0) ops) <= xloglen /\
+  xbatches c (xinit from0) ops = xkeep_from T from0 (gseg from0 (Z.to_nat (x_from (xfinal c (xinit from0) ops) - from0))).
+Proof.
+  intros ops from0 Hf Hfine.
+  assert (HA : Forall (WP.fine (map abs_event log) (abs_tok_fn T)) (map abs_op ops)).
+  { apply Forall_forall. intros o' Ho. apply in_map_iff in Ho as (o & <- & Ho). apply abs_fine. rewrite Forall_forall in Hfine. apply Hfine. exact Ho. }
+  assert (Hf' : 0 <= W.w_from (abs_state (xinit from0)) <= WP.loglen (map abs_event log)).
+  { unfold WP.loglen. rewrite map_length. exact Hf. }
+  destruct (WP.partition_all_histories (abs_cfg c) (map abs_event log) (abs_tok_fn T) (map abs_op ops) (abs_state (xinit from0))
+              (WB.Inv_init _ _ _ from0) eq_refl Hf' HA) as (D & Q & _ & _).
+  rewrite sim_final in D. destruct (xpartition ops (xinit from0) Hf Hfine) as [P1 P2].
+  repeat apply conj; [exact D|apply all_quiet_flags; exact Q|exact (proj1 P1)|exact (proj2 P1)|exact P2].
+Qed.
+
+End XPartition.
+
+(* exactly-once on the polling path is preserved by the composition: for EVERY predicate p of the abstract watcher's events
+   (so every predicate of uid, block, level, sender, payload id, attested token), along every history of the composed watcher
+   the p-events forwarded by height ticks plus those still held never exceed the p-events fetched in batches *)
+Definition xheld (s : xstate) : list xuevent := flat_map xpb_evs (x_pending s) ++ match x_inflight s with Some l => l | None => [] end.
+Definition xfwd_u (f : xfwd) : xuevent := {| xu_ev := xf_ev f; xu_msg := xf_msg f; xu_chain := xf_chain f |}.
+Definition xtick_fwd (o : xop) (x : xout) : list xuevent := match o with XTick _ _ _ _ => map xfwd_u (xo_fwd x) | _ => [] end.
+Fixpoint xtick_fwds (c : xcfg) (s : xstate) (ops : list xop) : list xuevent :=
+  match ops with [] => [] | o :: t => xtick_fwd o (snd (xstep c s o)) ++ xtick_fwds c (fst (xstep c s o)) t end.
+
+Lemma sim_tick_fwds : forall c ops s, WB.tick_fwds (abs_cfg c) (abs_state s) (map abs_op ops) = map abs_u (xtick_fwds c s ops).
+Proof.
+  intros c ops. induction ops as [|o t IH]; intro s; cbn [map WB.tick_fwds xtick_fwds]; [reflexivity|].
+  rewrite sim_step. cbn [fst snd]. rewrite IH, map_app. f_equal.
+  destruct o; cbn [abs_op WB.tick_fwd xtick_fwd map]; try reflexivity. cbn [abs_out W.o_fwd]. rewrite !map_map. reflexivity.
+Qed.
+
+Lemma sim_held : forall s, WB.held (abs_state s) = map abs_u (xheld s).
+Proof.
+  intro s. unfold WB.held, xheld, WB.plist, abs_state. cbn [W.w_pending W.w_inflight]. rewrite map_app. f_equal.
+  - induction (x_pending s) as [|b t IH]; [reflexivity|]. cbn [map flat_map]. rewrite map_app, IH. reflexivity.
+  - destruct (x_inflight s); reflexivity.
+Qed.
+
+Lemma cnt_map : forall p l, WB.cnt p (map abs_u l) = length (filter (fun u => p (abs_u u)) l).
+Proof. intros p l. unfold WB.cnt. rewrite filter_map_comm, map_length. reflexivity. Qed.
+
+Theorem pipeline_at_most_once : forall c (p : W.uevent -> bool) ops from0,
+  let n := fun l => length (filter (fun u => p (abs_u u)) l) in
+  (n (xtick_fwds c (xinit from0) ops) + n (xheld (xfinal c (xinit from0) ops)) <= n (xbatches c (xinit from0) ops))%nat.
+Proof.
+  intros c p ops from0. cbv zeta.
+  pose proof (WB.forwarded_at_most_fetched (abs_cfg c) p (map abs_op ops) (abs_state (xinit from0))) as H.
+  rewrite sim_tick_fwds, sim_final, sim_held, sim_batches, !cnt_map in H.
+  change (WB.held (abs_state (xinit from0))) with (@nil W.uevent) in H. cbn [WB.cnt filter length] in H. lia.
+Qed.
+
+(* ================================================================== 4. reading a faithful message; attestations *)
+(* field by field: the message carries exactly the values the event's raw fields denote, the block timestamp in whole
+   seconds (+ the millisecond remainder as nanoseconds), the Alephium chain id and the hash of the event's tx id *)
+Theorem faithful_message_fields : forall c EP HP AP f, faithful c EP HP AP f -> 0 <= W.h_ts (xf_hdr f) ->
+  let m := xf_pub f in
+  exists s0 s1 s2 s3 s4 s5 nonce,
+    x_fields (xf_ev f) = [C.VByteVec Ty.bytevec s0; C.VU256 Ty.u256 s1; C.VU256 Ty.u256 s2;
+                          C.VByteVec Ty.bytevec s3; C.VByteVec Ty.bytevec s4; C.VU256 Ty.u256 s5] /\
+    C.hex_decode s0 = Some (m_eaddr m) /\ length (m_eaddr m) = 32%nat /\ m_eaddr m = xc_bridge c /\
+    C.parse_dec s1 = Some (m_tchain m) /\ 0 <= m_tchain m <= 65535 /\
+    C.parse_dec s2 = Some (m_seq m) /\ 0 <= m_seq m < 18446744073709551616 /\
+    C.hex_decode s3 = Some nonce /\ length nonce = 4%nat /\ m_nonce m = unbe nonce /\
+    C.hex_decode s4 = Some (m_payload m) /\
+    C.parse_dec s5 = Some (m_cl m) /\ 0 <= m_cl m <= 255 /\
+    m_echain m = 255 /\ m_tx m = C.hex_to_hash (x_txid (xf_ev f)) /\
+    m_ts m = W.h_ts (xf_hdr f) / 1000 /\ m_tns m = (W.h_ts (xf_hdr f) mod 1000) * 1000000.
+Proof.
+  intros c EP HP AP f (_ & _ & _ & Cv & Sd & Pb & _) Hts. cbv zeta. rewrite Pb.
+  destruct (CP.wm_accepts_only _ _ _ Cv) as (s0 & s1 & s2 & s3 & s4 & s5 & nonce & E & D0 & L0 & P1 & R1 & P2 & R2 & D3 & L3 & EN & D4 & P5 & R5 & ET).
+  pose proof (CP.mp_fields (xf_msg f) (W.h_ts (xf_hdr f))) as F. cbv zeta in F. destruct F as (F1 & F2 & F3 & F4 & F5 & F6 & F7 & F8).
+  pose proof (CP.mp_time_nonneg (xf_msg f) (W.h_ts (xf_hdr f)) Hts) as Tm. cbv zeta in Tm. destruct Tm as [T1 T2].
+  exists s0, s1, s2, s3, s4, s5, nonce. rewrite F1, F2, F3, F4, F5, F6, F7, F8, T1, T2, ET. repeat apply conj; auto; lia.
+Qed.
+
+(* on the re-observation path the tx hash of the message is the requested hash itself *)
+Theorem reobserved_tx_hash : forall c EP HP AP r f, faithful c EP HP AP f -> reobs_from c r f -> m_tx (xf_pub f) = xr_txhash r.
+Proof.
+  intros c EP HP AP r f (_ & _ & _ & Cv & _ & Pb & _) (L & Tx & _). rewrite Pb.
+  pose proof (CP.mp_fields (xf_msg f) (W.h_ts (xf_hdr f))) as F. cbv zeta in F. destruct F as (_ & _ & _ & _ & _ & _ & _ & F8). rewrite F8.
+  destruct (CP.wm_accepts_only _ _ _ Cv) as (s0 & s1 & s2 & s3 & s4 & s5 & nonce & _ & _ & _ & _ & _ & _ & _ & _ & _ & _ & _ & _ & _ & ET).
+  rewrite ET, Tx. apply CP.hex_to_hash_to_hex. exact L.
+Qed.
+
+(* what GetTokenInfo accepts (on the raw answers): the native token's constant answer, or three succeeded calls with exactly
+   one return each - two byte vectors and a U256 in 0..255 - whose NUL-trimmed bytes / value it returns with the requested id *)
+Theorem xget_token_info_spec : forall id a t, xget_token_info id a = XTiOk t ->
+  (id = alph_token_id /\ t = native_info) \/
+  (exists vs vn vd sb nb d, a = XMcRes [XOk [vs]; XOk [vn]; XOk [vd]] /\ C.to_bytevec vs = C.COk sb /\ C.to_bytevec vn = C.COk nb /\ C.to_uint8 vd = C.COk d /\
+     t = {| C.t_id := id; C.t_decimals := d; C.t_symbol := C.bytes_to_string sb; C.t_name := C.bytes_to_string nb |}).
+Proof.
+  intros id a t. unfold xget_token_info. destruct (bytes_eqb_spec id alph_token_id) as [E|E].
+  - intro H. injection H as <-. left. auto.
+  - destruct a as [|rs]; [discriminate|]. destruct rs as [|r0 [|r1 [|r2 [|r3 rest]]]]; cbn [length Nat.eqb negb]; try discriminate.
+    rewrite WP.tokinfo_tests_own.
+    unfold xshape_test. cbn [nth].
+    destruct r0 as [|[|v0 [|? ?]]]; cbn [xsucceeded negb]; try discriminate.
+    destruct r1 as [|[|v1 [|? ?]]]; cbn [xsucceeded negb]; try discriminate.
+    destruct r2 as [|[|v2 [|? ?]]]; cbn [xsucceeded negb]; try discriminate.
+    destruct (C.to_bytevec v0) as [sb|] eqn:B0; [|discriminate]. destruct (C.to_bytevec v1) as [nb|] eqn:B1; [|discriminate].
+    destruct (C.to_uint8 v2) as [d|] eqn:B2; [|discriminate]. intro H. injection H as <-. right. exists v0, v1, v2, sb, nb, d. auto.
+Qed.
+
+(* ATTESTATIONS END TO END: a forwarded attest-token message decodes (token id, decimals, symbol, name) to exactly what
+   GetTokenInfo made of an answer of the node about that token *)
+Theorem forwarded_attestation_equals_chain : forall c EP HP AP f, faithful c EP HP AP f -> xis_attest (xf_msg f) = true ->
+  exists t a, C.parse_attest_token (m_payload (xf_pub f)) = C.COk t /\ xf_chain f = Some t /\ AP a /\ xget_token_info (C.t_id t) a = XTiOk t.
+Proof.
+  intros c EP HP AP f (_ & _ & _ & _ & _ & Pb & At) A. destruct (At A) as (t & a & E1 & E2 & E3 & E4).
+  exists t, a. rewrite Pb. pose proof (CP.mp_fields (xf_msg f) (W.h_ts (xf_hdr f))) as F. cbv zeta in F.
+  destruct F as (_ & _ & _ & _ & _ & _ & F7 & _). rewrite F7. auto.
+Qed.
+
+(* ... composed with the contract side (C11): if the payload is the one token_bridge.ral builds for (id, decimals, symbol, name),
+   then the token contract's answer the watcher compared it with is exactly (id, decimals, trimmed symbol, trimmed name) *)
+Theorem forwarded_contract_attestation : forall c EP HP AP f id decimals symbol name nonce,
+  faithful c EP HP AP f -> xis_attest (xf_msg f) = true ->
+  C.attest_payload id go_chain_id_alephium decimals symbol name nonce = Some (m_payload (xf_pub f)) ->
+  exists a, AP a /\ xget_token_info id a =
+    XTiOk {| C.t_id := id; C.t_decimals := decimals; C.t_symbol := C.bytes_to_string symbol; C.t_name := C.bytes_to_string name |}.
+Proof.
+  intros c EP HP AP f id decimals symbol name nonce Hf A Hp.
+  destruct (forwarded_attestation_equals_chain c EP HP AP f Hf A) as (t & a & E1 & _ & E3 & E4).
+  apply CP.attest_payload_inv in Hp as (Ep & Li & Ls & Ln & _ & Hc & Hd).
+  rewrite Ep, (CP.parse_attest_payload id go_chain_id_alephium decimals symbol name Li Ls Ln Hc Hd), Z.eqb_refl in E1. injection E1 as <-.
+  exists a. auto.
+Qed.
+
+(* liveness carried over: an event pending in the composed watcher is forwarded at the first tick at which it is final *)
+Lemma in_map_abs_fwd : forall y l, In y (map abs_fwd l) -> exists f, In f l /\ abs_fwd f = y.
+Proof. intros y l H. apply in_map_iff in H as (f & E & H). exists f. auto. Qed.
